@@ -545,7 +545,8 @@ class ContactlessFrontend(object):
 
             targets = [RemoteTarget(brty) for brty in rdwr_options['targets']]
             targets = rdwr_options['on-startup'](targets)
-            if targets and all([isinstance(o, RemoteTarget) for o in targets]):
+            if isinstance(targets, (list, tuple)) and targets and all(
+                    [isinstance(o, RemoteTarget) for o in targets]):
                 rdwr_options['targets'] = targets
             else:
                 log.debug("removing rdwr_options after on-startup")
